@@ -19,7 +19,9 @@ JOBS = [
 # the finish side and the join side of the same protocol are under contract in unit C12; they carry C01's clauses
 # "join returns only after the function has returned ... and yields exactly that value" and are part of this check
 import units.c12 as _c12
-JOBS += [j for j in _c12.JOBS if j.name in ("c12.entry_point_1", "c12.entry_point_2", "c12.cleanup", "c12.join_1", "c12.join", "c12.tryjoin")]
+JOBS += [j for j in _c12.JOBS if j.name in ("c12.entry_point_1", "c12.entry_point_2", "c12.cleanup", "c12.join_1", "c12.join", "c12.tryjoin",
+                                             # a thread created with a custom stack size runs on a stack of that size that is released where it was taken
+                                             "c12.stack.custom", "c12.stack.custom.alloc", "c12.stack.default")]
 # the public API functions are one-line forwarders to the bodies under contract: checked mechanically (DESIGN §3.5b)
 from units.common_forward import forward_job
 JOBS = list(JOBS) + [forward_job("c01")]
